@@ -7,6 +7,7 @@ CONSTANTS
   Ks = {1}
   Crashes = FALSE
   Toks = {99}
+  Prio = TRUE
 INVARIANT NoStale
 INVARIANT Minimal
 INVARIANT Ordered
